@@ -366,6 +366,14 @@ def classification_types(A):
                 v = A.try_fold(node, m)
                 if isinstance(v, EnumVal) and v.enum == 'TokenTypes':
                     out.add(v.member)
+                # a table kept as a class attribute (self._PAIRS / Lex._PAIRS)
+                if node.attr in lex.class_attrs and norm(node.value) in (
+                        'self', 'Lex', 'cls'):
+                    for x in ast.walk(lex.class_attrs[node.attr]):
+                        if isinstance(x, ast.Attribute):
+                            w = A.try_fold(x, lex)
+                            if isinstance(w, EnumVal) and w.enum == 'TokenTypes':
+                                out.add(w.member)
     return out
 
 
